@@ -681,15 +681,15 @@ theorem pre_explicit_spec (G : MG α) (S : List α) (a : α) (os : List α) :
 
 /-! ## 15. `get_nodes_in_directed_paths`: the nodes on simple directed paths from `S` to `T`
 
-`G.OnSimpleDiPath k S T v` (Spec/GraphSpec.lean): `v` lies on a simple directed path with at least `k` nodes from a
-member of `S` to a member of `T`.  The implementation for acyclic graphs (transitive closure) realises `k = 2`
-(paths with at least one edge), the one for cyclic graphs (`nx.all_simple_paths`) realises `k = 1`: it also
-returns the members of `S ∩ T`, as trivial paths (`onSimpleDiPath_one_iff`).  Arguments that are not nodes are
-ignored by the acyclic branch and raise `NodeNotFound` in the cyclic one. -/
+`G.OnSimpleDiPath S T v` (Spec/GraphSpec.lean): `v` lies on a simple directed path with at least one edge from a
+member of `S` to a member of `T`.  Both implementations — transitive closure for acyclic graphs, enumeration of
+simple paths (`nx.all_simple_paths`) for graphs with a directed cycle — return exactly this set (the second one
+since `fix:` 2ae6e11, before which it also returned the members of `S ∩ T` as trivial paths).  They still differ
+on arguments that are not nodes: the acyclic branch ignores them, the cyclic one raises `NodeNotFound`. -/
 
-/-- acyclic branch: never fails, and returns the nodes on directed paths with at least one edge -/
+/-- acyclic branch: never fails -/
 theorem nodesInDirectedPaths_dag_spec (G : MG α) (hG : G.WF) (hA : G.Acyclic) (S T : List α) :
-    ∃ R, G.nodesInDirectedPaths S T = .ok R ∧ ∀ v, v ∈ R ↔ G.OnSimpleDiPath 2 S T v := by
+    ∃ R, G.nodesInDirectedPaths S T = .ok R ∧ ∀ v, v ∈ R ↔ G.OnSimpleDiPath S T v := by
   refine ⟨G.nodesInDirectedPathsDag S T, by simp [nodesInDirectedPaths, (isAcyclic_iff G hG).2 hA], fun v => ?_⟩
   rw [mem_nodesInDirectedPathsDag G hG]
   constructor
@@ -698,23 +698,14 @@ theorem nodesInDirectedPaths_dag_spec (G : MG α) (hG : G.WF) (hA : G.Acyclic) (
   · rintro ⟨s, hs, t, ht, p, hp, _, hl, hv⟩
     exact ⟨s, hs, t, ht, p, hp, hl, hv⟩
 
-/-- cyclic branch: when one argument is empty or all arguments are nodes, returns the nodes on simple directed
-paths, trivial paths included -/
+/-- cyclic branch: returns when one argument is empty or all arguments are nodes -/
 theorem nodesInDirectedPaths_cyclic_spec (G : MG α) (hG : G.WF) (hA : ¬ G.Acyclic) (S T : List α)
     (h : S = [] ∨ T = [] ∨ ((∀ s ∈ S, s ∈ G.nodes) ∧ ∀ t ∈ T, t ∈ G.nodes)) :
-    ∃ R, G.nodesInDirectedPaths S T = .ok R ∧ ∀ v, v ∈ R ↔ G.OnSimpleDiPath 1 S T v := by
+    ∃ R, G.nodesInDirectedPaths S T = .ok R ∧ ∀ v, v ∈ R ↔ G.OnSimpleDiPath S T v := by
   obtain ⟨R, hR, hmem⟩ := nodesInDirectedPathsCyclic_ok G hG S T h
   have hac : G.isAcyclic = false := by
     rw [← Bool.not_eq_true, isAcyclic_iff G hG]; exact hA
-  refine ⟨R, by simp [nodesInDirectedPaths, hac, hR], fun v => ?_⟩
-  rw [hmem]
-  constructor
-  · rintro ⟨s, hs, t, ht, p, hp, hn, hv⟩
-    refine ⟨s, hs, t, ht, p, hp, hn, ?_, hv⟩
-    obtain ⟨p', rfl⟩ := hp.eq_cons
-    simp
-  · rintro ⟨s, hs, t, ht, p, hp, hn, _, hv⟩
-    exact ⟨s, hs, t, ht, p, hp, hn, hv⟩
+  exact ⟨R, by simp [nodesInDirectedPaths, hac, hR], hmem⟩
 
 /-- cyclic branch: the only failure is an argument that is not a node while both sets are non-empty -/
 theorem nodesInDirectedPaths_cyclic_error (G : MG α) (hG : G.WF) (hA : ¬ G.Acyclic) (S T : List α)
@@ -724,45 +715,43 @@ theorem nodesInDirectedPaths_cyclic_error (G : MG α) (hG : G.WF) (hA : ¬ G.Acy
     rw [← Bool.not_eq_true, isAcyclic_iff G hG]; exact hA
   simp [nodesInDirectedPaths, hac, nodesInDirectedPathsCyclic_error G S T hS hT h]
 
-/-- both branches at once: whatever the function returns is the set of nodes on simple directed paths from `S`
-to `T`; trivial paths count exactly when the graph has a directed cycle -/
+/-- both branches at once: whatever the function returns is the set of nodes on simple directed paths with at
+least one edge from `S` to `T` -/
 theorem nodesInDirectedPaths_spec (G : MG α) (hG : G.WF) (S T R : List α)
-    (h : G.nodesInDirectedPaths S T = .ok R) (v : α) :
-    (G.Acyclic → (v ∈ R ↔ G.OnSimpleDiPath 2 S T v)) ∧ (¬ G.Acyclic → (v ∈ R ↔ G.OnSimpleDiPath 1 S T v)) := by
-  constructor
-  · intro hA
-    obtain ⟨R', hR', hmem⟩ := nodesInDirectedPaths_dag_spec G hG hA S T
+    (h : G.nodesInDirectedPaths S T = .ok R) (v : α) : v ∈ R ↔ G.OnSimpleDiPath S T v := by
+  by_cases hA : G.Acyclic
+  · obtain ⟨R', hR', hmem⟩ := nodesInDirectedPaths_dag_spec G hG hA S T
     rw [h] at hR'; cases hR'; exact hmem v
-  · intro hA
-    by_cases hargs : S = [] ∨ T = [] ∨ ((∀ s ∈ S, s ∈ G.nodes) ∧ ∀ t ∈ T, t ∈ G.nodes)
+  · by_cases hargs : S = [] ∨ T = [] ∨ ((∀ s ∈ S, s ∈ G.nodes) ∧ ∀ t ∈ T, t ∈ G.nodes)
     · obtain ⟨R', hR', hmem⟩ := nodesInDirectedPaths_cyclic_spec G hG hA S T hargs
       rw [h] at hR'; cases hR'; exact hmem v
     · simp only [not_or] at hargs
       rw [nodesInDirectedPaths_cyclic_error G hG hA S T hargs.1 hargs.2.1 hargs.2.2] at h
       cases h
 
-omit [DecidableEq α] in
-/-- the two readings differ exactly by the members of `S ∩ T` -/
-theorem onSimpleDiPath_one_iff (G : MG α) (S T : List α) (v : α) :
-    G.OnSimpleDiPath 1 S T v ↔ G.OnSimpleDiPath 2 S T v ∨ (v ∈ S ∧ v ∈ T) := by
-  constructor
-  · rintro ⟨s, hs, t, ht, p, hp, hn, _, hv⟩
-    by_cases hl : 2 ≤ p.length
-    · exact Or.inl ⟨s, hs, t, ht, p, hp, hn, hl, hv⟩
-    · obtain ⟨p', rfl⟩ := hp.eq_cons
-      have : p' = [] := List.eq_nil_of_length_eq_zero (by simp only [List.length_cons] at hl; omega)
-      subst this
-      obtain ⟨_, rfl⟩ := hp.singleton_eq
-      simp only [List.mem_singleton] at hv
-      subst hv
-      exact Or.inr ⟨hs, ht⟩
-  · rintro (⟨s, hs, t, ht, p, hp, hn, hl, hv⟩ | ⟨hs, ht⟩)
-    · exact ⟨s, hs, t, ht, p, hp, hn, by omega, hv⟩
-    · exact ⟨v, hs, v, ht, [v], .single v, by simp, by simp, by simp⟩
+/-- it returns whenever the arguments are nodes -/
+theorem nodesInDirectedPaths_total (G : MG α) (hG : G.WF) (S T : List α)
+    (hS : ∀ s ∈ S, s ∈ G.nodes) (hT : ∀ t ∈ T, t ∈ G.nodes) : ∃ R, G.nodesInDirectedPaths S T = .ok R := by
+  by_cases hA : G.Acyclic
+  · obtain ⟨R, hR, _⟩ := nodesInDirectedPaths_dag_spec G hG hA S T; exact ⟨R, hR⟩
+  · obtain ⟨R, hR, _⟩ := nodesInDirectedPaths_cyclic_spec G hG hA S T (Or.inr (Or.inr ⟨hS, hT⟩)); exact ⟨R, hR⟩
 
-/-- the closure form of the acyclic reading: `v` lies between some `s ∈ S` and `t ∈ T` with `s ≠ t` reachable -/
-theorem onSimpleDiPath_two_iff (G : MG α) (hA : G.Acyclic) (S T : List α) (v : α) :
-    G.OnSimpleDiPath 2 S T v ↔ ∃ s ∈ S, ∃ t ∈ T, TransGen G.DiEdge s t ∧
+omit [DecidableEq α] in
+/-- a member of `S ∩ T` is not returned for its own sake: the path must have an edge, and a simple path with an
+edge cannot start and end at the same node -/
+theorem onSimpleDiPath_self (G : MG α) (s v : α) : ¬ G.OnSimpleDiPath [s] [s] v := by
+  rintro ⟨s', hs, t', ht, p, hp, hn, hl, _⟩
+  simp only [List.mem_singleton] at hs ht
+  subst hs ht
+  cases hp with
+  | single => simp at hl
+  | cons _ hp' => exact (List.nodup_cons.1 hn).1 hp'.last_mem
+
+omit [DecidableEq α] in
+/-- the closure form on acyclic graphs: `v` lies between some `s ∈ S` and `t ∈ T` with `t` reachable from `s`
+by at least one edge -/
+theorem onSimpleDiPath_iff_of_acyclic (G : MG α) (hA : G.Acyclic) (S T : List α) (v : α) :
+    G.OnSimpleDiPath S T v ↔ ∃ s ∈ S, ∃ t ∈ T, TransGen G.DiEdge s t ∧
       ReflTransGen G.DiEdge s v ∧ ReflTransGen G.DiEdge v t := by
   constructor
   · rintro ⟨s, hs, t, ht, p, hp, _, hl, hv⟩
@@ -875,8 +864,8 @@ theorem equiv_congr_intervene (G H : MG α) (hG : G.WF) (hH : H.WF) (h : G.equiv
 
 end intervene_congr
 
-private theorem diPath_congr (G H : MG α) (hd : ∀ u v, G.DiEdge u v ↔ H.DiEdge u v) (k : Nat) (S T : List α)
-    (v : α) : G.OnSimpleDiPath k S T v ↔ H.OnSimpleDiPath k S T v := by
+private theorem diPath_congr (G H : MG α) (hd : ∀ u v, G.DiEdge u v ↔ H.DiEdge u v) (S T : List α)
+    (v : α) : G.OnSimpleDiPath S T v ↔ H.OnSimpleDiPath S T v := by
   have key : ∀ (G H : MG α), (∀ u v, G.DiEdge u v → H.DiEdge u v) →
       ∀ a p b, G.DiPath a p b → H.DiPath a p b := by
     intro G H hd a p b hp
@@ -893,12 +882,8 @@ theorem equiv_congr_nodesInDirectedPaths (G H : MG α) (hG : G.WF) (hH : H.WF) (
     (S T R R' : List α) (hR : G.nodesInDirectedPaths S T = .ok R) (hR' : H.nodesInDirectedPaths S T = .ok R')
     (v : α) : v ∈ R ↔ v ∈ R' := by
   rw [equiv_iff] at h
-  have hA := acyclic_congr G H h.2.1
-  have h1 := nodesInDirectedPaths_spec G hG S T R hR v
-  have h2 := nodesInDirectedPaths_spec H hH S T R' hR' v
-  by_cases hAG : G.Acyclic
-  · rw [h1.1 hAG, h2.1 (hA.1 hAG)]; exact diPath_congr G H h.2.1 2 S T v
-  · rw [h1.2 hAG, h2.2 (fun hh => hAG (hA.2 hh))]; exact diPath_congr G H h.2.1 1 S T v
+  rw [nodesInDirectedPaths_spec G hG S T R hR v, nodesInDirectedPaths_spec H hH S T R' hR' v]
+  exact diPath_congr G H h.2.1 S T v
 
 /-! ## 17. totality: the set-valued queries return exactly when their arguments are nodes -/
 
@@ -1045,8 +1030,8 @@ example : exampleGraph.pre [1] none = .ok [4, 0, 3] := by decide
 /-- acyclic branch: `2 ∈ S ∩ T` is returned only because it ends the path 0 → 1 → 2 -/
 example : exampleGraph.nodesInDirectedPaths [0, 2] [2] = .ok [1, 0, 2] := by decide
 example : exampleGraph.nodesInDirectedPaths [2] [2] = .ok [] := by decide
-/-- cyclic branch: `3 ∈ S ∩ T` counts as a trivial path -/
-example : cyclicExample.nodesInDirectedPaths [3] [3] = .ok [3] := by decide
+/-- cyclic branch (after the fix): `3 ∈ S ∩ T` alone is not returned either -/
+example : cyclicExample.nodesInDirectedPaths [3] [3] = .ok [] := by decide
 example : cyclicExample.nodesInDirectedPaths [0, 3] [3] = .ok [0, 1, 2, 3] := by decide
 example : cyclicExample.nodesInDirectedPaths [0] [7] = .error (.internal "NodeNotFound") := by decide
 example : exampleGraph.getDistrict 3 = .ok [0, 2, 3] := by decide
